@@ -119,7 +119,7 @@ PROPS = {
         scale={'quick': 6, 'thorough': 10},
         level='fault_enumeration', flavours=fl(['debug', 'fastrel', 'asan'], ['debug', 'fastrel', 'asan', 'valgrind']), exhaustive=True,
         rule="every root x values and every borrowed source (&[T], SerIter, Holder<&[T]>, Holder<SerIter>, nested) x 37 element types: "
-             "writer failing at every byte position k in [0,len] (error and Ok(0)), flush failure, 7 short-write / Interrupted "
+             "writer failing at every byte position k in [0,len] (error and Ok(0)), flush failure (six error kinds, incl. a flush that keeps answering Interrupted / WouldBlock), 7 short-write / Interrupted "
              "patterns, failing+splitting writers, transient faults (one write call rejected, later ones accepted), the no-std writer "
              "failing at every call (sticky and transient), store(/dev/full); oracle: WriteError, "
              "accepted bytes are a prefix, source heap blocks registered as protected are never freed/reallocated, value unchanged",
